@@ -21,6 +21,14 @@ HARNESS = dict(
         (_ENC, ["-DUSE_SIMD_ENCODING"], "encoding_vector"),
         # the portable build beside it: no USE_SIMD_ENCODING, every public symbol renamed portable_<name>
         (_ENC, [f"-D{s}=portable_{s}" for s in _PUBLIC], "encoding_portable"),
+        # a third build: the AVX2 file in the configuration without _mm256_extract_epi64 (config.h's
+        # AWS_HAVE_MM256_EXTRACT_EPI64 removed by the wrapper), and encoding.c dispatching to it; symbols renamed noext_<name>
+        (os.path.join(cbuild.VERIF, "harness", "codec_avx2_noext.c"),
+         ["-mavx", "-mavx2", '-DVERIF_AVX2_SRC="' + os.path.join(cbuild.REPO, "source", "arch", "intel", "encoding_avx2.c") + '"'],
+         "encoding_avx2_noext"),
+        (_ENC, ["-DUSE_SIMD_ENCODING"] + [f"-D{s}=noext_{s}" for s in _PUBLIC] +
+         [f"-D{s}=noext_{s}" for s in ("aws_common_private_base64_decode_sse41", "aws_common_private_base64_encode_sse41")],
+         "encoding_noext"),
     ],
 )
 TRUSTED = ["hand model lean/AwsVerif/Model/Codec.lean of the portable code paths: its length functions and every integer expression of "
@@ -32,6 +40,9 @@ TRUSTED = ["hand model lean/AwsVerif/Model/Codec.lean of the portable code paths
            "(listed in the file header) is trusted; range constants, shuffle tables, loop bounds, fill/padding characters are regenerated "
            "from the source (Gen/CodecAvx2Consts.lean), masks and shift counts of pack_vec/encode_stride are transcribed by hand; the model is "
            "tied to the vector build by this correspondence run (P lines and the W lines of partial stores)",
+           "configurations: encoding_avx2.c is compiled twice for the harness — as configured (AWS_HAVE_MM256_EXTRACT_EPI64) and, through "
+           "harness/codec_avx2_noext.c, without that macro (the #else extraction in decode()); base64 ops run through portable, vector and "
+           "vector-noext builds; the generator additionally checks that both #ifdef branches read the packed vector",
            "Python stdlib base64/binascii and a 40-line RFC 3629 reference in the direct oracle"]
 ASSUMPTIONS = ["byte buffers passed in are valid (len <= capacity); a caller stops feeding a decoder after an error (the decoder's or its callback's)",
                "UTF-8 validity is RFC 3629 *without* the U+10FFFF upper bound: the decoder accepts F4 90 80 80 .. F7 BF BF BF "
